@@ -105,6 +105,10 @@ where
 {
     /// reserve a robin-hood table capable of holding at least `sz` elements
     pub fn new() -> BackedRobinhoodTable<'a, T> {
+        #[cfg(feature = "verif_hooks")]
+        if let Some(cap) = crate::verif_hooks::table_capacity() {
+            return Self::verif_with_capacity(cap);
+        }
         let v: Vec<HashTableElement<T>> = vec![HashTableElement::default(); DEFAULT_SIZE];
 
         BackedRobinhoodTable {
@@ -249,6 +253,30 @@ impl<'a, T: Eq + Hash + Clone> BackedRobinhoodTable<'a, T> {
                 return None;
             }
         }
+    }
+}
+
+#[cfg(feature = "verif_hooks")]
+impl<'a, T: Hash + Eq + Clone> BackedRobinhoodTable<'a, T> {
+    /// a table with `cap` slots instead of `DEFAULT_SIZE`
+    pub fn verif_with_capacity(cap: usize) -> BackedRobinhoodTable<'a, T> {
+        BackedRobinhoodTable {
+            tbl: vec![HashTableElement::default(); cap],
+            alloc: Bump::new(),
+            cap,
+            len: 0,
+            hits: 0,
+        }
+    }
+
+    /// `(cap, len, slots)`, each slot as `(stored element, hash, psl)`
+    #[allow(clippy::type_complexity)]
+    pub fn verif_dump(&self) -> (usize, usize, Vec<(Option<&'a T>, u64, u8)>) {
+        (
+            self.cap,
+            self.len,
+            self.tbl.iter().map(|e| (e.ptr, e.hash, e.psl)).collect(),
+        )
     }
 }
 
